@@ -13,7 +13,7 @@ func init() { register("C12", checkC12) }
 
 func checkC12(r *core.Result) {
 	r.Explanation = "Dispatcher-family analysis of extensions.go: the seven accessors' per-runtime arms (regions) reference only their own runtime's packages (D1) and assert only its interfaces (D3); every MsgType switch has arms for the three runtimes and, except for the documented panics of ClearExtension, the unsupported path does not panic (D2); " +
-		"in every arm that receives an extension descriptor, the descriptor is type-asserted with comma-ok to the arm's own runtime's descriptor type, the mismatch branch leaves (returns false / an error, or falls to the documented panic) before any call into the runtime that could touch the message (E1); ExtensionFieldNumber's type switch has a case for each of the three descriptor types and an erroring default (E2). The generated code's use of GetExtension/SetExtension with the extension variable matching the tag it writes is checked on the expanded templates (C05/C06)."
+		"in every arm that receives an extension descriptor, the descriptor is type-asserted with comma-ok to the arm's own runtime's descriptor type, the mismatch branch leaves (returns false / an error, or falls to the documented panic) before any call into the runtime that could touch the message (E1); ExtensionFieldNumber's type switch has a case for each of the three descriptor types and an erroring default (E2); transparency (E3): Has/Get/Set/Clear/ClearAllExtensions consist of the dispatch only, each runtime arm calls exactly that runtime's function of the same name (the v2 arm of ClearAllExtensions: RangeExtensions+ClearExtension), every return hands back what that call produced or the documented descriptor-mismatch result, and no other call post-processes it. The generated code's use of GetExtension/SetExtension with the extension variable matching the tag it writes is checked on the expanded templates (C05/C06)."
 	r.RuleText = "one obligation per arm (region), per switch, per descriptor assertion"
 	r.Assumptions = []string{"not decided: Set/Get/Has/Clear/Range coherence over operation histories (delegated to the owning runtime)"}
 	r.Trusted = []string{"go/types", "family table"}
@@ -30,6 +30,8 @@ func checkC12(r *core.Result) {
 	r.Floor("MsgType switches in extensions.go", len(switches), 6)
 	checkRegions(r, prog, root, regs)
 	checkMsgSwitches(r, prog, root, switches, map[string]bool{"ClearExtension": true})
+	// E3: the accessors hand back the owning runtime's own result
+	checkForwarders(r, prog, root, "E3", "HasExtension", "GetExtension", "SetExtension", "ClearExtension", "ClearAllExtensions")
 
 	// E1: descriptor assertions
 	nDesc := 0
